@@ -17,8 +17,8 @@ class Ctx:
     pass
 
 
-def level_path(k):
-    return posixpath.join(*([ROOT] + ['d%d' % i for i in range(1, k + 1)]))
+def level_path(k, root=ROOT):
+    return posixpath.join(*([root] + ['d%d' % i for i in range(1, k + 1)]))
 
 
 def make_chain(depth, nnames=3):
@@ -71,8 +71,11 @@ def make_chain(depth, nnames=3):
 
 
 def run_find(c):
-    with c.fs.installed():
-        return find_top_level_manifest(level_path(c.depth), allow_xdev=c.allow_xdev,
+    w = tree.world(c)
+    with w.installed():
+        c.root_used = w.root_path
+        return find_top_level_manifest(level_path(c.depth, w.root_path),
+                                       allow_xdev=c.allow_xdev,
                                        allow_compressed=c.allow_compressed)
 
 
@@ -94,10 +97,10 @@ def judge_find(c, out):
             break
         if lev['ignores']:
             break
-        last = posixpath.join(level_path(k), lev['name'])
+        last = posixpath.join(level_path(k, c.root_used), lev['name'])
     got = posixpath.normpath(out) if out is not None else None
     return got == last, last is not None and last != posixpath.join(
-        level_path(c.depth), 'Manifest')
+        level_path(c.depth, c.root_used), 'Manifest')
 
 
 def conditions(tier):
@@ -111,7 +114,7 @@ def conditions(tier):
             nm = f'find_d{depth}_' + ''.join(str(int(x)) for x in fx.values())
             cs.append(make_cond(
                 nm, make_chain(depth, 3 if full else 2), run_find, judge_find, fx, timeout=300, group='M-find',
-                real=False, twin=(all(fx[f'p{k}'] for k in range(depth + 1))
+                twin=(all(fx[f'p{k}'] for k in range(depth + 1))
                                   and fx['allow_xdev'] and fx['boundary'] == 0),
                 descr=f'real find_top_level_manifest from depth {depth} on the model; per '
                       'level symbolic: Manifest name (plain/.gz/.bz2), IGNORE kind (none, the '
@@ -126,3 +129,10 @@ ASSUMPTIONS = ['Manifest parsing replaced by model entry objects (find_path_entr
                'the model root "/" holds no Manifest']
 OUTSIDE = ['depth > 3', 'several Manifest names present at one level']
 STUBS = ['gemato.find_top_level.os / open_potentially_compressed_path -> ModelFS']
+
+
+def validate(seed, tier):
+    """the same chains as real directories (single device) below a temporary directory -
+    the real walk continues up to the real "/" - with the unpatched gemato"""
+    from vf.scen import validate_against_real
+    return validate_against_real(conditions('quick'), seed, per_cond=1, limit=60)
